@@ -37,6 +37,10 @@ struct Snap {
     umask: u32,
     traps: Vec<(String, u8, String, u8)>,
     fds: Vec<(i32, u64, bool)>,
+    /// outside the property's snapshot (CEnv cases): jobs (pid, owned), $!, frame codes
+    jobs: Vec<(i32, bool)>,
+    last_async: i32,
+    frames: Vec<u64>,
 }
 
 thread_local! {
@@ -46,6 +50,19 @@ thread_local! {
 }
 
 const CONDS: [&str; 7] = ["EXIT", "HUP", "INT", "QUIT", "TERM", "USR1", "USR2"];
+
+thread_local! {
+    /// weak references to every open file description that was given an identity: the allocation
+    /// stays reserved (the description itself is dropped as usual), so an address is never reused
+    static KEEP: RefCell<Vec<Box<dyn std::any::Any>>> = const { RefCell::new(Vec::new()) };
+    /// descriptor-trace stream: the initial table of the process created by the n-th successful fork
+    static FORKS: RefCell<Vec<(usize, Vec<(i32, u64, bool)>)>> = const { RefCell::new(Vec::new()) };
+}
+
+fn keep_alloc<T: 'static>(rc: &std::rc::Rc<T>) {
+    let weak = std::rc::Rc::downgrade(rc);
+    KEEP.with(|k| k.borrow_mut().push(Box::new(weak)));
+}
 
 fn ofd_id(ptr: usize) -> u64 {
     OFD_IDS.with(|m| {
@@ -122,11 +139,44 @@ fn take_snapshot(env: &mut VEnv) -> Snap {
         }
         for (fd, body) in proc.fds() {
             let ptr = std::rc::Rc::as_ptr(&body.open_file_description) as usize;
+            keep_alloc(&body.open_file_description);
             s.fds.push((fd.0, ofd_id(ptr), body.flags.contains(FdFlag::CloseOnExec)));
         }
     });
     let _ = SIGINT;
+    for (_, job) in env.jobs.iter() {
+        s.jobs.push((job.pid.0, job.is_owned));
+    }
+    s.last_async = env.jobs.last_async_pid().0;
+    for f in env.stack.iter() {
+        use yash_env::stack::Frame;
+        s.frames.push(match f {
+            Frame::Loop => 0,
+            Frame::Subshell => 1,
+            Frame::Condition => 2,
+            Frame::Builtin(_) => 3,
+            Frame::DotScript => 4,
+            Frame::Trap(_) => 5,
+            _ => 6,
+        });
+    }
+    // the frame of the `snap` built-in itself
+    if s.frames.last() == Some(&3) {
+        s.frames.pop();
+    }
     s
+}
+
+fn xview_coq(s: &Snap) -> String {
+    let jobs: Vec<String> =
+        s.jobs.iter().map(|(p, o)| format!("({}, {})", coq::n(*p as u64), coq::b(*o))).collect();
+    let frames: Vec<String> = s.frames.iter().map(|c| coq::n(*c)).collect();
+    format!(
+        "({}, {}, {})",
+        if jobs.is_empty() { "(@nil (N * bool))".to_string() } else { coq::list(&jobs) },
+        coq::n(s.last_async.max(0) as u64),
+        if frames.is_empty() { "(@nil N)".to_string() } else { coq::list(&frames) }
+    )
 }
 
 fn snap_main(env: &mut VEnv, args: Vec<Field>) -> BuiltinFuture<'_> {
@@ -240,7 +290,7 @@ fn wrap(kind: usize, body: &str, long: bool) -> String {
     }
 }
 
-const SETUPS: [&str; 24] = [
+const SETUPS: [&str; 25] = [
     "v1=one",
     "v2='two words'; export v2",
     "v3=three; readonly v3",
@@ -265,7 +315,10 @@ const SETUPS: [&str; 24] = [
     "exec 5>&1",
     "exec 20>/tmp/out20",
     "ulimit -n 14",
+    "true &",
 ];
+/// index of the set-up command that forks (left out where forks are counted)
+const FORKING_SETUP: usize = 24;
 
 const MUTATORS: [&str; 38] = [
     "v1=changed",
@@ -378,6 +431,7 @@ fn run(sc: &Scenario, w: &mut CasesWriter) {
     let tty = sc.tty;
     SNAPS.with(|v| v.borrow_mut().clear());
     OFD_IDS.with(|m| m.borrow_mut().clear());
+    KEEP.with(|k| k.borrow_mut().clear());
     let fork_fails = sc.fork_fails;
     let setup = move |env: &mut VEnv, state: &State| {
         STATE.with(|s| *s.borrow_mut() = Some(state.clone()));
@@ -447,7 +501,7 @@ fn run(sc: &Scenario, w: &mut CasesWriter) {
             let mut marked = fake_entry.clone();
             marked.vars.push("<fork failed>".into());
             let term = format!(
-                "(KParen, {}, {}, {}, {})",
+                "(CSnap (KParen, {}, {}, {}, {}))",
                 snap_coq(&before),
                 snap_coq(&fake_entry),
                 snap_coq(&marked),
@@ -494,7 +548,7 @@ fn run(sc: &Scenario, w: &mut CasesWriter) {
         childend.vars.push("<ended early>".into());
     }
     let term = format!(
-        "({}, {}, {}, {}, {})",
+        "(CSnap ({}, {}, {}, {}, {}))",
         KINDS[sc.kind],
         snap_coq(&before),
         snap_coq(&entry),
@@ -512,12 +566,26 @@ fn run(sc: &Scenario, w: &mut CasesWriter) {
     );
     let nontrivial = entry != childend && !ended_early;
     w.push(&term, &json, &[], if nontrivial { Some(text.clone()) } else { None });
+    // the part of the entry view outside the snapshot: jobs, $!, frames
+    {
+        let term = format!("(CEnv {} {} {})", KINDS[sc.kind], xview_coq(&before), xview_coq(&entry));
+        let json = format!(
+            "{{\"script\":{},\"entry_view\":\"jobs/$!/frames\",\"before\":{},\"entry\":{}}}",
+            json_str(&text),
+            json_str(&format!("jobs {:?} last {} frames {:?}", before.jobs, before.last_async, before.frames)),
+            json_str(&format!("jobs {:?} last {} frames {:?}", entry.jobs, entry.last_async, entry.frames))
+        );
+        w.count("env:entry-view");
+        w.count(&format!("env:parent-jobs:{}", before.jobs.len()));
+        w.count(&format!("env:parent-frames:{}", before.frames.len()));
+        w.push(&term, &json, &[], if before.jobs.is_empty() { None } else { Some(format!("{text}#env")) });
+    }
     // snapshots the parent took while the child was under way: same oracle
     for label in ["mid1", "mid2", "mid3"] {
         if let Some(mid) = get(label, true) {
             w.count("mid-snapshot");
             let term = format!(
-                "({}, {}, {}, {}, {})",
+                "(CSnap ({}, {}, {}, {}, {}))",
                 KINDS[sc.kind],
                 snap_coq(&before),
                 snap_coq(&entry),
@@ -533,6 +601,268 @@ fn run(sc: &Scenario, w: &mut CasesWriter) {
             );
             w.push(&term, &json, &[], Some(format!("{text}#{label}")));
         }
+    }
+}
+
+// ---- descriptor-trace stream ---------------------------------------------------
+//
+// One construct (a pipeline of N commands, or a command substitution) is run on
+// a parent whose descriptor table has a chosen shape, optionally under a soft
+// limit on descriptors (so that pipe() fails with EMFILE at some stage) or with
+// the fork of stage k failing.  Observed: the parent's table before and after,
+// the parent's table at every successful fork (= the initial table of the new
+// process, read when that process is polled for the first time), every child's
+// table after its rewiring (`snap eK` is the first command of stage K).  Coq
+// evaluates the oracle on these and compares them with the model's trace.
+
+/// Executor wrapper of the descriptor-trace stream: fails the `fail_at`-th fork;
+/// every other new process records its initial descriptor table.
+struct TraceExecutor {
+    inner: std::rc::Rc<dyn yash_env::system::r#virtual::Executor>,
+    state: std::rc::Weak<RefCell<yash_env::system::r#virtual::SystemState>>,
+    main_pid: yash_env::job::Pid,
+    count: std::cell::Cell<usize>,
+    ok_count: std::cell::Cell<usize>,
+    fail_at: Option<usize>,
+}
+
+impl std::fmt::Debug for TraceExecutor {
+    fn fmt(&self, f: &mut std::fmt::Formatter<'_>) -> std::fmt::Result {
+        write!(f, "TraceExecutor")
+    }
+}
+
+impl yash_env::system::r#virtual::Executor for TraceExecutor {
+    fn spawn(
+        &self,
+        task: std::pin::Pin<Box<dyn std::future::Future<Output = ()>>>,
+    ) -> Result<(), Box<dyn std::error::Error>> {
+        let n = self.count.get();
+        self.count.set(n + 1);
+        if Some(n) == self.fail_at {
+            return Err("injected fork failure".into());
+        }
+        let idx = self.ok_count.get();
+        self.ok_count.set(idx + 1);
+        let state = self.state.clone();
+        let main_pid = self.main_pid;
+        let wrapped = async move {
+            if let Some(state) = state.upgrade() {
+                let st = state.borrow();
+                // process identifiers grow with every fork and nothing is reaped
+                // before the construct is over: the idx-th new process is ours
+                let mut pids: Vec<_> = st.processes.keys().copied().filter(|p| *p != main_pid).collect();
+                pids.sort();
+                if let Some(pid) = pids.get(idx) {
+                    let mut table = vec![];
+                    for (fd, body) in st.processes[pid].fds() {
+                        let ptr = std::rc::Rc::as_ptr(&body.open_file_description) as usize;
+                        keep_alloc(&body.open_file_description);
+                        table.push((fd.0, ofd_id(ptr), body.flags.contains(FdFlag::CloseOnExec)));
+                    }
+                    FORKS.with(|f| f.borrow_mut().push((idx, table)));
+                }
+            }
+            task.await
+        };
+        self.inner.spawn(Box::pin(wrapped))
+    }
+}
+
+const SHAPES: [&str; 10] = [
+    ":",
+    "exec 3>/tmp/o3",
+    "exec 3>/tmp/o3 5</tmp/in4",
+    "exec 0<&-",
+    "exec 1>&-",
+    "exec 0<&- 1>&-",
+    "exec 3>/tmp/o3 4</tmp/in4 6>/tmp/o6; exec 1>&-",
+    "exec 4>/tmp/o4 0<&-",
+    "exec 20>/tmp/o20 3</tmp/in4",
+    "exec 3>/tmp/o3 4>&3 0<&- ",
+];
+
+struct FdScenario {
+    /// 0 = pipeline, 1 = command substitution
+    construct: u64,
+    n: usize,
+    shape: usize,
+    limit: Option<u64>,
+    forkfail: Option<usize>,
+}
+
+fn fd_script(sc: &FdScenario) -> String {
+    let mut lines = vec!["mkdir -p /tmp /work; echo data >/tmp/in4".to_string()];
+    lines.push(SHAPES[sc.shape].to_string());
+    if let Some(k) = sc.limit {
+        lines.push(format!("ulimit -n {k}"));
+    }
+    lines.push("trap 'snap after' EXIT".into());
+    lines.push("snap before".into());
+    if sc.construct == 0 {
+        let mut stages = vec![];
+        for k in 1..=sc.n {
+            let work = match (k == 1, k == sc.n) {
+                (true, true) => "echo data >/tmp/result",
+                (true, false) => "echo data",
+                (false, true) => "cat >/tmp/result",
+                (false, false) => "cat",
+            };
+            stages.push(format!("{{ snap e{k}; {work}; }}"));
+        }
+        lines.push(stages.join(" | "));
+    } else {
+        lines.push("v=$(snap e1; echo data)".into());
+        lines.push("echo \"$v\" >/tmp/result".into());
+    }
+    lines.push("snap done".into());
+    lines.join("\n")
+}
+
+fn table_coq(t: &[(i32, u64, bool)]) -> String {
+    let v: Vec<String> =
+        t.iter().map(|(fd, id, ce)| format!("({}, ({}, {}))", coq::n(*fd as u64), coq::n(*id), coq::b(*ce))).collect();
+    if v.is_empty() { "(@nil (N * (N * bool)))".into() } else { coq::list(&v) }
+}
+
+fn run_fd(sc: &FdScenario, w: &mut CasesWriter) {
+    let text = fd_script(sc);
+    SNAPS.with(|v| v.borrow_mut().clear());
+    OFD_IDS.with(|m| m.borrow_mut().clear());
+    KEEP.with(|k| k.borrow_mut().clear());
+    FORKS.with(|f| f.borrow_mut().clear());
+    let fail_at = sc.forkfail;
+    let setup = move |env: &mut VEnv, state: &State| {
+        STATE.with(|s| *s.borrow_mut() = Some(state.clone()));
+        let inner = state.borrow().executor.clone().unwrap();
+        state.borrow_mut().executor = Some(std::rc::Rc::new(TraceExecutor {
+            inner,
+            state: std::rc::Rc::downgrade(state),
+            main_pid: env.main_pid,
+            count: std::cell::Cell::new(0),
+            ok_count: std::cell::Cell::new(0),
+            fail_at,
+        }));
+        env.builtins.insert("snap", Builtin::new(Type::Mandatory, snap_main));
+        env.builtins.insert("nap", Builtin::new(Type::Mandatory, nap_main));
+        env.builtins.insert("mkdir", Builtin::new(Type::Mandatory, mkdir_main));
+    };
+    let argv = vec!["-c".into(), text.clone()];
+    let (out, state) = run_shell(RunOpts { argv, ..Default::default() }, setup);
+    let snaps = SNAPS.with(|v| std::mem::take(&mut *v.borrow_mut()));
+    let mut forks = FORKS.with(|f| std::mem::take(&mut *f.borrow_mut()));
+    forks.sort_by_key(|(i, _)| *i);
+    let get = |label: &str| snaps.iter().find(|(l, _, _)| l == label).map(|(_, _, s)| s.fds.clone());
+    w.count(&format!("fd:construct:{}", if sc.construct == 0 { "pipeline" } else { "cmdsubst" }));
+    w.count(&format!("fd:n:{}", sc.n));
+    w.count(&format!("fd:shape:{}", sc.shape));
+    w.count(&format!("fd:limit:{:?}", sc.limit));
+    if let Some(k) = sc.forkfail {
+        w.count(&format!("fd:forkfail-at-stage:{}", k + 1));
+    }
+    let (Some(before), Some(after)) = (get("before"), get("after")) else {
+        w.count("fd:skipped:missing-snapshot");
+        if std::env::var("C08_DEBUG").is_ok() {
+            eprintln!("fd: missing snapshot: stderr={} panicked={:?} script=\n{}", out.stderr, out.panicked, text);
+        }
+        return;
+    };
+    let completed = get("done").is_some();
+    // children the parent started: one entry per successful fork (a pipeline
+    // of one command runs in the shell itself: one entry, no fork)
+    let nchildren = if sc.construct == 0 && sc.n == 1 { 1 } else { forks.len() };
+    let entries: Vec<Option<Vec<(i32, u64, bool)>>> = (1..=nchildren).map(|k| get(&format!("e{k}"))).collect();
+    let result = state
+        .as_ref()
+        .and_then(|st| yv_harness::vsh::read_file(st, "/tmp/result"))
+        .map(|b| String::from_utf8_lossy(&b).into_owned())
+        .unwrap_or_default();
+    // Under a descriptor limit the redirection that collects the result may
+    // itself fail (it needs a descriptor at 10 or above): flow is judged only
+    // without a limit.
+    let flow_judged = sc.limit.is_none() && completed;
+    let flow_ok = if flow_judged { !out.deadlock && !out.timeout && result == "data\n" } else { true };
+    if flow_judged {
+        w.count("fd:flow-judged");
+    }
+    w.count(if completed { "fd:completed" } else { "fd:abandoned" });
+    w.count(&format!("fd:children-started:{}", forks.len()));
+    for e in &entries {
+        w.count(if e.is_some() { "fd:entry-observed" } else { "fd:entry-missing" });
+    }
+    let term = format!(
+        "(CFd {} {} {} {} {} {} {} {} {} {})",
+        coq::n(sc.construct),
+        coq::nat(sc.n),
+        coq::opt(sc.limit.map(coq::n)),
+        coq::opt(sc.forkfail.map(coq::nat)),
+        table_coq(&before),
+        if forks.is_empty() {
+            "(@nil (list (N * (N * bool))))".to_string()
+        } else {
+            coq::list(&forks.iter().map(|(_, t)| table_coq(t)).collect::<Vec<_>>())
+        },
+        if entries.is_empty() {
+            "(@nil (option (list (N * (N * bool)))))".to_string()
+        } else {
+            coq::list(&entries.iter().map(|e| coq::opt(e.as_ref().map(|t| table_coq(t)))).collect::<Vec<_>>())
+        },
+        table_coq(&after),
+        coq::b(completed),
+        coq::b(flow_ok)
+    );
+    let json = format!(
+        "{{\"script\":{},\"fault\":{},\"before\":{},\"tables_at_forks\":{},\"child_entries\":{},\"after\":{},\"completed\":{},\"flow\":{},\"result\":{},\"stderr\":{}}}",
+        json_str(&text),
+        json_str(&format!("limit {:?}, fork failing at stage index {:?}", sc.limit, sc.forkfail)),
+        json_str(&format!("{:?}", before)),
+        json_str(&format!("{:?}", forks)),
+        json_str(&format!("{:?}", entries)),
+        json_str(&format!("{:?}", after)),
+        completed,
+        json_str(if flow_judged { if flow_ok { "ok" } else { "BROKEN" } } else { "not judged" }),
+        json_str(&result),
+        json_str(&out.stderr)
+    );
+    let nontrivial = !forks.is_empty();
+    w.push(&term, &json, &[], if nontrivial { Some(format!("{text}#{:?}", sc.forkfail)) } else { None });
+}
+
+fn fd_stream(thorough: bool, w: &mut CasesWriter) {
+    let limits: Vec<Option<u64>> = if thorough {
+        vec![None, Some(2), Some(3), Some(4), Some(5), Some(6), Some(7), Some(8), Some(9)]
+    } else {
+        vec![None, Some(4), Some(5), Some(7)]
+    };
+    // pipelines of 1..6 commands x table shapes x limits
+    for n in 1..=6usize {
+        for shape in 0..SHAPES.len() {
+            for (li, limit) in limits.iter().enumerate() {
+                if !thorough && limit.is_some() && (n + shape + li) % 2 == 1 {
+                    continue;
+                }
+                run_fd(&FdScenario { construct: 0, n, shape, limit: *limit, forkfail: None }, w);
+            }
+        }
+    }
+    // the fork of stage k fails, every k
+    for n in 2..=6usize {
+        for k in 0..n {
+            for shape in 0..SHAPES.len() {
+                if !thorough && (n + k + shape) % 4 != 0 {
+                    continue;
+                }
+                let limit = if (n + k + shape) % 8 == 0 { Some(8) } else { None };
+                run_fd(&FdScenario { construct: 0, n, shape, limit, forkfail: Some(k) }, w);
+            }
+        }
+    }
+    // command substitution
+    for shape in 0..SHAPES.len() {
+        for limit in [None, Some(3), Some(4), Some(5), Some(6)] {
+            run_fd(&FdScenario { construct: 1, n: 1, shape, limit, forkfail: None }, w);
+        }
+        run_fd(&FdScenario { construct: 1, n: 1, shape, limit: None, forkfail: Some(0) }, w);
     }
 }
 
@@ -612,7 +942,8 @@ fn main() {
     }
     // fault injection: the fork of the subshell fails, every kind, two parent states
     for kind in 0..KINDS.len() {
-        for (i, setups) in [rich.clone(), vec![0usize, 4, 19]].into_iter().enumerate() {
+        let rich_no_fork: Vec<usize> = rich.iter().copied().filter(|i| *i != FORKING_SETUP).collect();
+        for (i, setups) in [rich_no_fork, vec![0usize, 4, 19]].into_iter().enumerate() {
             run(
                 &Scenario {
                     kind,
@@ -650,10 +981,14 @@ fn main() {
             &mut w,
         );
     }
+    fd_stream(args.thorough(), &mut w);
     w.finish(
         "parent state from a random subset of 22 set-up commands; 1-4 of 38 mutators run inside a \
          subshell of one of 6 kinds (parenthesised, command substitution, first/middle/last element of a \
          pipeline of 2-4 commands, asynchronous), optionally inside a function or an outer subshell that set \
-         the traps, with or without /dev/tty; non-trivial = the mutators changed the child's own snapshot; distinct = by script",
+         the traps, with or without /dev/tty; non-trivial = the mutators changed the child's own snapshot; distinct = by script. \
+         Descriptor-trace stream: pipelines of 1-6 commands and command substitutions on 10 shapes of the parent's \
+         descriptor table (holes, closed stdin/stdout, descriptors above 10), with a soft descriptor limit that makes \
+         pipe() fail at stage 1 or 2 (reader or writer), and with the fork of every stage failing in turn",
     );
 }
